@@ -65,6 +65,28 @@ def announcements(one_fault, rnd, quick):
     return out, nsweep
 
 
+DEV_CLAIMED = {"short": ("both", "size"), "fail": ("both", "size", "hash")}
+
+
+def device_execs(rnd, quick):
+    """The receiving application's output device misbehaves at its devAt-th write: accepts all but the last byte
+    of the block without an error ("short") or fails ("fail").  Fault-free stream, real sender and receiver, for the
+    announcements that can notice (short: an announced size; fail: size or hash).  With less announced an unannounced
+    transfer cannot notice -- not claimed (thorough runs them too: only the model's prediction is compared)."""
+    out = []
+    for dev in ("short", "fail"):
+        for ann in (DEV_CLAIMED[dev] if quick else ("both", "size", "hash", "none")):
+            for size, at in ([(1, 1), (REAL_BS, 1), (2 * REAL_BS + 1, 2), (3 * REAL_BS, 3)] if quick else
+                             [(1, 1), (2, 1), (REAL_BS, 1), (REAL_BS + 1, 2), (2 * REAL_BS + 1, 1), (2 * REAL_BS + 1, 2), (2 * REAL_BS + 1, 3),
+                              (3 * REAL_BS, 3), (7 * REAL_BS + 5, 4), (7 * REAL_BS + 5, 8)]):
+                out.append({"n": (size + REAL_BS - 1) // REAL_BS, "steps": [{"a": "Offer"}], "sender": "real", "bs": REAL_BS,
+                            "size": size, "ann": ann, "dev": dev, "devAt": at, "cseed": rnd.getrandbits(40), "kind": "device"})
+            for bs, size, at in ([(3, 7, 2)] if quick else [(1, 4, 4), (3, 7, 2), (1000, 2500, 3)]):
+                out.append({"n": (size + bs - 1) // bs, "steps": [{"a": "Offer"}], "sender": "script", "bs": bs,
+                            "size": size, "ann": ann, "dev": dev, "devAt": at, "cseed": rnd.getrandbits(40), "kind": "device"})
+    return out
+
+
 def sweep(rnd, quick):
     """Fault-free transfers, sizes around block boundaries x block sizes (drained by the harness)."""
     out = []
@@ -135,6 +157,7 @@ def s5_classes(behs):
 def run_s5(chk, quick, rnd, replay_execs=None):
     """SOCKS5 bytestreams: IbbS5.tla model-checked, one real loopback transfer per class of its behaviours."""
     chk.mc(vf.tlc_mc("IbbS5.tla", "IbbS5.cfg", workers=2), "IbbS5.cfg")
+    chk.mc(vf.tlc_mc("IbbS5.tla", "IbbS5Dev.cfg", workers=2), "IbbS5Dev.cfg (misbehaving output device)")
     chk.mc(vf.tlc_mc("IbbS5.tla", "IbbS5Live.cfg", workers=2), "IbbS5Live.cfg (both jobs finish under fair scheduling)")
     if replay_execs is not None:
         execs = replay_execs
@@ -177,6 +200,12 @@ def run_s5(chk, quick, rnd, replay_execs=None):
                 if (size + unit - 1) // unit != n:
                     continue
                 execs.append(dict(clean[n], method="socks5", unit=unit, size=size, ann=ann, cseed=rnd.getrandbits(40), kind="sweep"))
+        for dev in ("short", "fail"):
+            for ann in (DEV_CLAIMED[dev] if quick else ("both", "size", "hash", "none")):
+                for size in ([3000] if quick else [1, 3000, 40000]):
+                    n = min(size, 3)
+                    execs.append(dict(clean[n], method="socks5", unit=(size + n - 1) // n, size=size, ann=ann, dev=dev,
+                                      cseed=rnd.getrandbits(40), kind="device"))
         chk.cov["generation"]["socks5_size_sweep"] = {"sizes": sweep_sizes, "announcements": 4}
     if not execs:
         return [], {}, {"cases": 0, "lines": 0, "viol": [], "ndiv": 0, "divs": [], "faulted": 0, "clean": 0, "wall_s": 0}
@@ -243,7 +272,7 @@ def short_s5(b):
     f = [s for s in b["steps"] if s["a"] == "Fault"]
     if b.get("foreign"):
         return f"socks5/ann={b.get('ann', 'both')}/size={b.get('size')}/n={b['n']}:foreign stream host offer ({b['foreign']}), clean"
-    return f"socks5/ann={b.get('ann', 'both')}/unit={b.get('unit')}/size={b.get('size')}/n={b['n']}:" + (f"{f[0]['k']}(unit {f[0]['u']})" if f else "clean")
+    return f"socks5/ann={b.get('ann', 'both')}" + (f"/dev={b['dev']}" if b.get("dev", "all") != "all" else "") + f"/unit={b.get('unit')}/size={b.get('size')}/n={b['n']}:" + (f"{f[0]['k']}(unit {f[0]['u']})" if f else "clean")
 
 
 def klass(b, lines, prop=""):
@@ -253,7 +282,7 @@ def klass(b, lines, prop=""):
     c = "+".join(ks) if ks else "clean"
     if inj and (not ks or prop == "ForeignInert"):
         c += "+inject(" + ",".join(inj) + ")"
-    return c + (":blocks>65536" if b["n"] > 65536 else "") + (":ann=" + b["ann"] if b.get("ann", "both") != "both" else "")
+    return c + (":dev=" + b["dev"] if b.get("dev", "all") != "all" else "") + (":blocks>65536" if b["n"] > 65536 else "") + (":ann=" + b["ann"] if b.get("ann", "both") != "both" else "")
 
 
 def short(b):
@@ -263,7 +292,7 @@ def short(b):
         parts.append({"RDeliver": "R", "SDeliver": "S", "Offer": "O"}.get(a, a) +
                      ("(" + str(s.get("k", s.get("w"))) + ("/" + s["t"] if "t" in s else "") + ")"
                       if a in ("Fault", "Inject", "Burst") else ""))
-    return f"{b.get('sender', 'real')}/ann={b.get('ann', 'both')}/bs={b.get('bs')}/size={b.get('size')}/n={b['n']}:" + ",".join(parts)
+    return f"{b.get('sender', 'real')}/ann={b.get('ann', 'both')}" + (f"/dev={b['dev']}@{b.get('devAt')}" if b.get("dev", "all") != "all" else "") + f"/bs={b.get('bs')}/size={b.get('size')}/n={b['n']}:" + ",".join(parts)
 
 
 def validate_in_chunks(chk, trace, max_lines=60000):
@@ -311,6 +340,7 @@ def run(chk, replay=None):
     if with_burst["distinct"] != no_burst["distinct"]:
         raise vf.MachineryError("Ibb.tla: Burst (closed form of k fault-free rounds) reaches states the single steps do not "
                                 f"({with_burst['distinct']} vs {no_burst['distinct']} distinct states)")
+    chk.mc(vf.tlc_mc("Ibb.tla", "IbbDev.cfg", workers=4), "IbbDev.cfg (misbehaving output device)")
     chk.mc(vf.tlc_mc("Ibb.tla", "IbbLive.cfg", workers=4), "IbbLive.cfg (termination under fair delivery)")
     if not quick:
         chk.mc(vf.tlc_mc("Ibb.tla", "Ibb2.cfg", workers=4), "Ibb2.cfg (two faults: safety)")
@@ -341,7 +371,9 @@ def run(chk, replay=None):
         sw = sweep(rnd, quick)
         an, nsw = announcements(vf.maximal_behaviours(one), rnd, quick)
         chk.cov["generation"]["other_announcements"] = {"fault_free_sweep": nsw, "one_fault": len(an) - nsw}
-        sw = sw + an
+        dv = device_execs(rnd, quick)
+        chk.cov["generation"]["output_device"] = {"executions": len(dv)}
+        sw = sw + an + dv
         lg = long_cases(rnd, quick)
         chk.cov["generation"].update({"size_sweep": len(sw), "long_transfers": len(lg)})
         execs = execs + sw + lg
@@ -463,7 +495,7 @@ def run(chk, replay=None):
         end = s5_cases[case][-1].get("o", {})
         for v in sorted(by_case5[case], key=lambda v: v["prop"]):
             sig = "C19:" + v["prop"] + ":socks5:" + (s5_cases[case][0].get("k") if end.get("applied") else "clean") + \
-                (":foreign-offer" if b.get("foreign") else "") + (":empty-file" if b["size"] == 0 else "") + (":ann=" + b["ann"] if b.get("ann", "both") != "both" else "")
+                (":foreign-offer" if b.get("foreign") else "") + (":dev=" + b["dev"] if b.get("dev", "all") != "all" else "") + (":empty-file" if b["size"] == 0 else "") + (":ann=" + b["ann"] if b.get("ann", "both") != "both" else "")
             if sig in reported5 or len(reported5) >= 4:
                 continue
             reported5.add(sig)
